@@ -253,6 +253,16 @@ def _run2(ctx, quick, mc_fixed, mc_asis, behaviours, gstats, bpath, brows, out, 
         # (first Truncate of a trace), else the structural boundaries plus a seeded sample
         "VERIF_PROBES": ("exh:all=0;sample=3|sim:all=0;sample=3|regress:all=0;sample=8|huge:all=0;sample=2" if quick else
                          "exh:all=0;sample=3|sim:all=4096;sample=8|regress:all=4096;sample=8|huge:all=1;sample=6")})
+    if rc != 0:
+        # the process died inside the cache file code (a record length read from a corrupted file and allocated, an
+        # index out of range ...): that is the code under test failing, not the driver
+        m = re.search(r"^(fatal error: [^\n]*|panic: [^\n]*)\n.*?\ngoroutine \d+[^\n]*\[running\]:\n((?:[^\n]+\n)+)", o, re.M | re.S)
+        if m and "converters.(*cacheFile)." in m.group(2) and "zz_verif" in m.group(2):
+            fn = re.search(r"converters\.\(\*cacheFile\)\.(\w+)", m.group(2)).group(1)
+            ctx.violation("C15.crash@%s" % fn, "the process died in cacheFile.%s while the harness replayed its operation sequences: %s" % (fn, m.group(1)[:200]),
+                          {"output": m.group(0)[:3000]})
+            return "exploration", {"evaluations": 0, "distinct_nontrivial": 0, "rule": "the harness run was cut short by a crash inside the code under test",
+                                   "crash": m.group(1)[:200]}, []
     go_must_pass(rc, o, "cachefile harness")
     summ = json.load(open(out))
     if summ["traces"] != len(behaviours) or sum(summ["chunk_rows"]) != summ["rows"]:
